@@ -107,6 +107,9 @@ pub enum RStack {
     Chain { split: u32 },
     /// The same inside a `BufReader`.
     ChainBuf { split: u32, cap: u32 },
+    /// The path-based wrapper (`load_pnm` / `load_obj`), its `File` redirected to the
+    /// simulated source through the guarded seam in /repo (`util::verif_fs`).
+    Wrapper,
 }
 
 #[derive(Serialize, Deserialize, Clone, Debug, PartialEq, Eq)]
@@ -150,6 +153,8 @@ pub enum WStack {
     Buf { cap: u32, by_ref: bool },
     /// `LineWriter`.
     Line { by_ref: bool },
+    /// The path-based wrapper (`save_ppm`), its `File` redirected to the simulated sink.
+    Wrapper,
 }
 
 #[derive(Serialize, Deserialize, Clone, Debug, PartialEq, Eq)]
@@ -816,6 +821,47 @@ pub fn apply_disk_faults(bytes: &mut Vec<u8>, faults: &[DiskFault], log: &Rc<Ref
 pub trait ReadConsumer {
     type Out;
     fn consume<R: Read>(self, r: R) -> Self::Out;
+    /// The same operation through the library's path-based wrapper.
+    fn consume_path(self, path: &std::path::Path) -> Self::Out;
+}
+
+/// Path under which the simulated file is offered to the wrappers.
+pub const SIM_PATH: &str = "/simulated/file";
+
+/// One simulated file behind the `verif_fs` seam: a source for `File::open`, a sink for
+/// `File::create`; any other path is declined (real file system).
+struct OneFile {
+    src: RefCell<Option<SimSource>>,
+    sink: RefCell<Option<SimSink>>,
+}
+
+impl re::util::verif_fs::SimFs for OneFile {
+    fn open(&self, path: &std::path::Path) -> Option<io::Result<Box<dyn Read>>> {
+        if path != std::path::Path::new(SIM_PATH) {
+            return None;
+        }
+        Some(match self.src.borrow_mut().take() {
+            Some(s) => Ok(Box::new(s) as Box<dyn Read>),
+            None => Err(io::ErrorKind::NotFound.into()),
+        })
+    }
+    fn create(&self, path: &std::path::Path) -> Option<io::Result<Box<dyn Write>>> {
+        if path != std::path::Path::new(SIM_PATH) {
+            return None;
+        }
+        Some(match self.sink.borrow_mut().take() {
+            Some(s) => Ok(Box::new(s) as Box<dyn Write>),
+            None => Err(io::ErrorKind::PermissionDenied.into()),
+        })
+    }
+}
+
+/// Removes the simulated file system again, also when the wrapper panics.
+struct Uninstall;
+impl Drop for Uninstall {
+    fn drop(&mut self) {
+        re::util::verif_fs::install(None);
+    }
 }
 
 pub fn drive_reader<C: ReadConsumer>(stack: RStack, src: SimSource, c: C) -> C::Out {
@@ -839,12 +885,19 @@ pub fn drive_reader<C: ReadConsumer>(stack: RStack, src: SimSource, c: C) -> C::
             let mut r = BufReader::with_capacity(cap as usize, a.chain(b));
             c.consume(&mut r)
         }
+        RStack::Wrapper => {
+            re::util::verif_fs::install(Some(Box::new(OneFile { src: RefCell::new(Some(src)), sink: RefCell::new(None) })));
+            let _guard = Uninstall;
+            c.consume_path(std::path::Path::new(SIM_PATH))
+        }
     }
 }
 
 pub trait WriteConsumer {
     type Out;
     fn consume<W: Write>(self, w: W) -> Self::Out;
+    /// The same operation through the library's path-based wrapper.
+    fn consume_path(self, path: &std::path::Path) -> Self::Out;
 }
 
 /// What the caller of a by-reference stack does after the library returned: flush,
@@ -885,6 +938,11 @@ pub fn drive_writer<C: WriteConsumer>(stack: WStack, sink: SimSink, c: C) -> (C:
             let out = c.consume(&mut w);
             let fl = flush_retrying(&mut w);
             (out, Some(fl))
+        }
+        WStack::Wrapper => {
+            re::util::verif_fs::install(Some(Box::new(OneFile { src: RefCell::new(None), sink: RefCell::new(Some(sink)) })));
+            let _guard = Uninstall;
+            (c.consume_path(std::path::Path::new(SIM_PATH)), None)
         }
     }
 }
